@@ -123,7 +123,7 @@ def check_case(rec, case):
         return
     R = case['ref']
     rec.note_case(case, case['cls'], len(R[4]) > 0 and fa.mn_count(R, sorted(fa.reachable(R))) > 1)
-    D = adapt.build_dfa(R)
+    D = adapt.build_dfa(R, scramble=case.get('scr'))
     _CUR.clear()
     o = call(ra.dfa_to_regexp, D)
     if _CUR.get('order') is not None:
@@ -186,7 +186,7 @@ def run(rec, rng, tier):
             check_case(rec, rc)
             return
         for case in gen_cases(rec, rng, tier):
-            check_case(rec, case)
+            check_case(rec, common.with_scramble(case))
     finally:
         if _LM is not None:
             rec.extra['anchored_line_coverage'] = _LM.coverage_report()
